@@ -148,6 +148,15 @@ Proof.
   intros n ab mp tr ops i Hi. apply (compaction_within_commit (cluster n ab mp tr) gen_rules); auto; gen_hyps n.
 Qed.
 
+(* ... and never the whole log: the implementation reads its last log index/term off the ARRAY that is left after
+   compaction, the model off the whole log; in every reachable state the two agree. *)
+Theorem C01_array_last_is_log_last : forall n ab mp tr ops i, i < n ->
+  let nd := nth_node (nodes (grun (cluster n ab mp tr) gen_rules ops)) i in
+  last_info (skipn (N.to_nat (base nd)) (log nd)) = last_info (log nd).
+Proof.
+  intros n ab mp tr ops i Hi. apply (array_last_is_log_last (cluster n ab mp tr) gen_rules); auto; gen_hyps n.
+Qed.
+
 (* non-vacuity: a schedule in which the leader really compacts (finalize 2 of 3 committed entries, drop them),
    keeps replicating, and the follower that was behind the compaction point still ends with the leader's log *)
 Example C01_compaction_nonvacuous :
@@ -181,5 +190,6 @@ Print Assumptions C01_leader_completeness.
 Print Assumptions C01_state_machine_safety.
 Print Assumptions C01_leader_holds_committed.
 Print Assumptions C01_compaction_within_commit.
+Print Assumptions C01_array_last_is_log_last.
 Print Assumptions C01_terms_never_decrease.
 Print Assumptions C01_commit_step_monotone.
